@@ -1,7 +1,9 @@
 (* Property C05 - throttling bounds recorded frames by the token bucket in every interval. *)
+From Coq Require Import String.
 From Coq Require Import List ZArith Bool.
 From TR Require Import model.Throttle model.ThrottleSpec proofs.BucketProofs proofs.ThrottleProofs proofs.ThrottleSec model.ThrExt proofs.TieCorollaries.
 (* constants and wiring read from the Go sources on every run *)
+From TR Require Import model.GoSem model.CtorExt proofs.TieCtor model.ThrExt model.DetExt model.Detector translated.ThrottledRecorder proofs.TieDetBase.
 From TR Require Import proofs.FactsThrottle.
 Import ListNotations.
 Open Scope Z_scope.
@@ -68,3 +70,17 @@ Proof. exact S05sec_source. Qed.
 Example C05_tight :
   take_times (brun (bucket_new 2 1 10) [BTake 29; BTake 29; BTake 29; BTake 29; BTake 30; BTake 30]) = [29; 29; 29; 30].
 Proof. exact bucket_bound_tight. Qed.
+
+(* ---- source tie for the constructor(s) as they are in /repo now (coq/translated, regenerated on
+   every run; configuration values are asked of the outside world by name, model/CtorExt.v) ---- *)
+(* NewThrottledRecorderWithClock: minimum length minSeconds*fps frames, bucket of whole bucket-size
+   seconds * fps frames, refill rate minFrames / min-refill seconds handed to the rate limiter. *)
+Theorem C05_source_constructor : forall c minSeconds,
+    erange (r_bucket_secs c) -> erange (r_refill_secs c) ->
+    exists w',
+      ThrottledRecorder_fn_NewThrottledRecorderWithClock cext minSeconds (cw_init c) =
+        Ok (thr_init (minSeconds * r_fps c)) w' /\
+      In ("ratelimit.NewBucketWithRateAndClock"%string,
+          [AInt (fenc (f64_div (f64_of_Z (minSeconds * r_fps c)) (r_refill_secs c)));
+           AInt (f64_trunc (r_bucket_secs c) * r_fps c); ASym "clock"]) (cw_calls w').
+Proof. exact tie_NewThrottledRecorder. Qed.
